@@ -87,8 +87,13 @@ def roundtrip(ctx, res, d, basefile, target, tfmt, dfmt, stem, what, detail, var
         res.labels.add('via:virtual-base-name')
     elif via_o:
         # -o <layer> (format from its extension); the file already exists and is longer than any layer
-        with open(os.path.join(d, layer), 'w') as f:
-            f.write('# stale\n' * 400)
+        if ctx.tgt_n % 10 == 0:
+            # the output file holds an older, longer, valid layer: nothing of it may survive (also when the new layer is empty)
+            stale = {'json': '{"stale_key": "left over"}' + ' ' * 3000 + '\n', 'toml': 'stale_key = "left over"\n' + '# pad\n' * 500,
+                     'jsonl': '{"stale_key": "left over"}' + ' ' * 3000 + '\n', 'json-pretty': '{\n  "stale_key": "left over"\n}' + '\n' * 3000}.get(dfmt, 'stale_key: left over\n' + '# pad\n' * 500)
+            with open(os.path.join(d, layer), 'w') as f:
+                f.write(stale)
+            res.labels.add('via:bkld-o-existing')
         r = cli([ctx.bin('bkld'), '-o', layer, basefile, tf], cwd=d)
         res.labels.add('via:bkld-o')
     else:
@@ -98,6 +103,9 @@ def roundtrip(ctx, res, d, basefile, target, tfmt, dfmt, stem, what, detail, var
         res.violate('roundtrip', 'bkld failed (%s): %s' % (what, r.err[-300:].decode('utf-8', 'replace')), **detail)
         return False
     if via_o:
+        if not os.path.exists(os.path.join(d, layer)):
+            res.violate('roundtrip', 'bkld -o did not create the output file (%s)' % what, **detail)
+            return False
         r.out = open(os.path.join(d, layer), 'rb').read()
     else:
         with open(os.path.join(d, layer), 'wb') as f:
